@@ -342,6 +342,19 @@ def large_views():
     return out
 
 
+def _large_work(items):
+    out = []
+    for h, w, origin, walls in items:
+        origin, walls = tuple(origin), tuple(tuple(c) for c in walls)
+        for name in ('raytracing', 'partially_occluded'):
+            m = judge_large_view(name, h, w, origin, walls)
+            if m:
+                out.append({'kind': 'large', 'name': name, 'h': h, 'w': w, 'origin': list(origin), 'walls': [list(c) for c in walls],
+                            'message': f'{name} view {h}x{w} (rays: {(h + 1) * (w + 1)}), walls {list(walls)}: {m}',
+                            'sig': {'fn': name, 'part': 'large_view'}, 'simplicity': 100 + len(walls)})
+    return out
+
+
 def replay(case):
     k = case['kind']
     if k == 'large':
@@ -387,19 +400,12 @@ def run(rep, tier, seed):
     for n, _, fl in dyn.pmap_w('vis', _vis_work, jobs):
         vn += n
         fails.extend(fl)
-    def large_work(item):
-        h, w, origin, walls = item
-        out = []
-        for name in ('raytracing', 'partially_occluded'):
-            m = judge_large_view(name, h, w, origin, walls)
-            if m:
-                out.append({'kind': 'large', 'name': name, 'h': h, 'w': w, 'origin': list(origin), 'walls': [list(c) for c in walls],
-                            'message': f'{name} view {h}x{w} (rays: {(h + 1) * (w + 1)}), walls {list(walls)}: {m}',
-                            'sig': {'fn': name, 'part': 'large_view'}, 'simplicity': 100 + len(walls)})
-        return out
-
     lv = large_views()
-    for fl in pmap(large_work, lv):
+    # one job per view size: the wall variants of a size run in one (fresh) process, in order
+    by_size = {}
+    for item in lv:
+        by_size.setdefault((item[0], item[1]), []).append(item)
+    for fl in dyn.pmap_w('large', _large_work, list(by_size.values())):
         fails.extend(fl)
     rep.part('large_views', views=sorted({(h, w) for h, w, _, _ in lv}), cases=len(lv) * 2,
              rule='view sizes whose ray count (h+1)(w+1) is 128, 256 or 512 (and neighbours): all-floor and three wall placements')
@@ -468,4 +474,4 @@ def run(rep, tier, seed):
     )
 
 
-WORKERS = {'vis': _vis_work, 'ni': _ni_work, 'stoch_wall': _stoch_wall_work, 'stoch': _stoch_work}
+WORKERS = {'large': _large_work, 'vis': _vis_work, 'ni': _ni_work, 'stoch_wall': _stoch_wall_work, 'stoch': _stoch_work}
